@@ -354,7 +354,14 @@ func xyzToFaceSiTi(p Point) (face int, si, ti uint32, level int) {
 	// not idempotent. On the other hand, the center is computed exactly the same
 	// way p was originally computed (if it is indeed the center of a Cell);
 	// the comparison can be exact.
-	if p.Vector == faceSiTiToXYZ(face, si, ti).Normalize() {
+	// The comparison is on the bit patterns rather than with ==, which treats
+	// -0 and +0 as equal: a point reported as a cell center is reconstructed
+	// from (face, si, ti) alone when it is decoded, so it must be identical to
+	// the center, including the signs of zero coordinates.
+	c := faceSiTiToXYZ(face, si, ti).Normalize()
+	if math.Float64bits(p.X) == math.Float64bits(c.X) &&
+		math.Float64bits(p.Y) == math.Float64bits(c.Y) &&
+		math.Float64bits(p.Z) == math.Float64bits(c.Z) {
 		return face, si, ti, level
 	}
 
